@@ -7,6 +7,10 @@
 //   solve_lgmres     side M K always_reset maxiter tol abstol ns        A PREC f x0
 //   solve_idrs       s omega smoothing replacement maxiter tol abstol ns   A PREC f x0  RAW
 //   solve_bicgstabl  side L delta convex maxiter tol abstol ns          A PREC f x0
+//   lgmres_vs_gmres  side M K always_reset maxiter tol abstol ns        A PREC f x0      (C05: first cycle of LGMRES(M,K) =
+//       GMRES(M+K)): result line = that of solve_lgmres on a fresh object; oracle: the REAL solver::gmres with restart length
+//       M+K is run on the same input, and both runs go through a preconditioner object that records the addresses of the
+//       arguments of every apply(), from which the number of restart cycles of the call is read off (see TracePrec)
 //   hist_gmres | hist_fgmres | hist_lgmres | hist_bicgstabl   <params as above>  n k (A PREC f x0)^k   (ONE solver object)
 //   hist_idrs        <params as above>  n k RAW (A PREC f x0)^k
 //   dblhist_<solver> <params as above> n k (A PREC f x0)^k     labelled TEST in DOUBLE precision (C15): the history is run on
@@ -26,6 +30,8 @@
 //        recomputed densely from the returned x with the same sqrt; iters <= maxiter; early return on ||f|| < eps
 //   C05  exact preconditioner (P A == I) and exact root of <r0,r0>: exactly one iteration and A x == f;
 //        identity of the GMRES / FGMRES iterate: x - x0 in P K_k(AP, r0)   (rank test, exact)
+//        LGMRES(M,K) vs GMRES(M+K) (op lgmres_vs_gmres, Lean: C05f.lgmres_first_cycle_refines_gmres): identical result
+//        (iterations, reported residual, x as rationals) whenever K = 0 or the LGMRES call made at most one restart cycle
 //   C15  every call of a history equals the same call on a fresh object (LGMRES: only with always_reset; without it
 //        the carried augmentation vectors are the documented exception and the difference is only tagged); rhs and
 //        matrix unchanged; zero rhs -> zero vector, 0 iterations; converged guess returned unchanged in 0 iterations
@@ -306,6 +312,54 @@ static void oracle(const Prm &p, const CallData &d, const Out &o, Result &r, boo
     }
 }
 
+
+// ------------------------------------------------------------------ C05: the first cycle of LGMRES(M, K) is GMRES(M + K)
+// The harness owns the preconditioner class, so it can watch the real solver from outside: TracePrec records the addresses
+// of (input, output) of every apply().  gmres.hpp / lgmres.hpp call apply() in exactly these places:
+//   right:  pass    preconditioner::spmv(right, P, A, z, v_new, *r)  ->  P.apply(z, *r)        output == r
+//           update  P.apply(dx = *r, tmp = *v[0] resp. *ws[0])                                  input  == r
+//   left:   head    P.apply(*v[0], *r)                                                          output == r
+//           pass    preconditioner::spmv(left, ...) -> spmv(A, z, *r); P.apply(*r, v_new)       input  == r
+// (r is the output of the first apply of a call on either side).  Hence the number of inner passes of every restart cycle
+// of ONE call is observable: cycles = #updates (right) resp. #heads - 1 (left).  Every recorded apply must fall in one of
+// the two classes and the passes must add up to the reported iteration count, otherwise the trace is declared unreadable
+// and no verdict is derived from it.
+struct TracePrec : Prec {
+    mutable std::vector<std::pair<const void*, const void*>> log;
+    template <class V1, class V2> void apply(const V1 &rhs, V2 &&x) const {
+        log.push_back(std::make_pair((const void*)&rhs, (const void*)&x));
+        Prec::apply(rhs, x);
+    }
+};
+struct Traced { Out o; long cycles = 0, first_passes = 0; bool readable = false; };
+template <class Solver> static Traced call_traced(const Solver &S, const CallData &d, bool left) {
+    auto A = d.A.crs();
+    TracePrec P; static_cast<Prec&>(P) = make_prec(d, A);
+    NVec F(d.f), X(d.x0);
+    Traced t;
+    try { size_t it; Q res; std::tie(it, res) = S(*A, P, F, X); t.o.it = (long)it; t.o.res = res; }
+    catch (const std::runtime_error&) { t.o.thrown = true; }
+    t.o.x.assign(X.data(), X.data() + X.size());
+    if (t.o.thrown) return t;
+    if (P.log.empty()) { t.readable = t.o.it == 0; return t; }       // early return (left) / no pass made (right)
+    const void *r = P.log[0].second;
+    long passes = 0, updates = 0, heads = 0;
+    for (auto &e : P.log) {
+        if (left) {
+            if (e.second == r && e.first != r) ++heads;
+            else if (e.first == r && e.second != r) { ++passes; if (heads == 1) ++t.first_passes; }
+            else return t;
+        } else {
+            if (e.second == r && e.first != r) { ++passes; if (updates == 0) ++t.first_passes; }
+            else if (e.first == r && e.second != r) ++updates;
+            else return t;
+        }
+    }
+    t.cycles = left ? heads - 1 : updates;
+    t.readable = passes == t.o.it && t.cycles >= 0;
+    return t;
+}
+
 static const char *solver_name(int s) { return s == S_GMRES ? "gmres" : s == S_FGMRES ? "fgmres" : s == S_LGMRES ? "lgmres" : s == S_IDRS ? "idrs" : "bicgstabl"; }
 
 static Out run_fresh(const Prm &p, const CallData &d) {
@@ -352,6 +406,35 @@ static Result execute(const Toks &t) {
     else if (op == "solve_idrs") solver = S_IDRS; else if (op == "solve_bicgstabl") solver = S_BICGSTABL;
     else if (op == "hist_gmres") { solver = S_GMRES; hist = true; } else if (op == "hist_fgmres") { solver = S_FGMRES; hist = true; } else if (op == "hist_lgmres") { solver = S_LGMRES; hist = true; }
     else if (op == "hist_idrs") { solver = S_IDRS; hist = true; } else if (op == "hist_bicgstabl") { solver = S_BICGSTABL; hist = true; }
+    else if (op == "lgmres_vs_gmres") {
+        Prm p = parse_prm(S_LGMRES, c);
+        CallData d = parse_call(c);
+        c.expect_end(); validate(d);
+        LGMRES SL(d.n(), lg_prm(p));
+        Traced tl = call_traced(SL, d, p.left);
+        Prm pg = p; pg.solver = S_GMRES; pg.M = p.M + p.K;
+        GMRES SG(d.n(), gm_prm(pg));
+        Traced tg = call_traced(SG, d, p.left);
+        oracle(p, d, tl.o, r, true);
+        r.out = show(tl.o);
+        r.tag("lgmres_vs_gmres"); r.tag(p.left ? "left" : "right"); r.tag("M" + std::to_string(p.M)); r.tag("K" + std::to_string(p.K));
+        if (!tl.readable || !tg.readable) { r.tag("trace_unreadable"); if (O_C05) r.fail("lgmres_vs_gmres: the apply() trace of the call could not be classified (head / pass / update)"); return r; }
+        r.tag("cycles" + std::to_string(tl.cycles));
+        const bool applies = p.K == 0 || tl.cycles <= 1;
+        if (applies) {
+            r.tag(p.K == 0 ? "K0_is_gmres" : "one_cycle_is_gmres");
+            if (O_C05) {
+                if (!same_out(tl.o, tg.o)) r.fail("LGMRES(M,K) with " + std::to_string(tl.cycles) + " restart cycle(s) differs from GMRES(M+K) on the same input");
+                else if (tl.cycles != tg.cycles || tl.first_passes != tg.first_passes) r.fail("LGMRES(M,K) and GMRES(M+K) return the same result through different cycle structures");
+            }
+        } else {
+            r.tag("multi_cycle");
+            // the first cycle is still GMRES(M+K)'s: the same number of passes before the first update
+            if (O_C05 && tl.first_passes != tg.first_passes) r.fail("first restart cycle of LGMRES(M,K) makes another number of passes than that of GMRES(M+K)");
+        }
+        r.nontrivial = applies && p.K >= 1 && tl.o.it >= 2;
+        return r;
+    }
     else if (op.rfind("dblhist_", 0) == 0) {
         std::string sn = op.substr(8); bool dbl_ok = false;
         for (int k = S_GMRES; k <= S_BICGSTABL; ++k) if (sn == solver_name(k)) { solver = k; dbl_ok = true; }
@@ -537,6 +620,14 @@ static void generate(Rng &rng, const Opts &o, std::vector<std::string> &lines) {
     lines.push_back("solve_bicgstabl right 2 0 1 4 0 0 0 3 3 2 0 4 1 -1 3 0 -1 1 4 2 -1 2 1 -1 2 4 diag 3 1/4 1/4 1/4 3 1 2 3 3 1 -1 2");
     // IDR(2) history on one object: the first call leaves non-zero values in the strict lower triangle of M
     lines.push_back("hist_idrs 2 7/10 0 0 3 0 0 0 3 2 3 1 0 1 3 0 1 2 3 3 2 0 4 1 -1 3 0 -1 1 4 2 -1 2 1 -1 2 4 id 3 1 2 3 3 0 0 0 3 3 2 0 3 1 1 3 0 -1 1 5 2 1 2 1 -2 2 4 id 3 2 0 1 3 1 1 0");
+    // LGMRES(M,K) vs GMRES(M+K): one cycle of M+K = 3 passes; K = 0 with restarts; two cycles (no verdict); left side
+    lines.push_back("lgmres_vs_gmres right 2 1 1 3 0 0 0 3 3 2 0 3 2 1 3 0 4 1 5 2 2 2 1 4 2 3 id 3 25 0 0 3 0 0 0");
+    lines.push_back("lgmres_vs_gmres right 1 0 1 4 0 0 0 3 3 2 0 3 2 1 3 0 4 1 5 2 2 2 1 4 2 3 id 3 25 0 0 3 0 0 0");
+    lines.push_back("lgmres_vs_gmres right 1 1 1 4 0 0 0 3 3 2 0 3 2 1 3 0 4 1 5 2 2 2 1 4 2 3 id 3 25 0 0 3 0 0 0");
+    lines.push_back("lgmres_vs_gmres left 1 2 1 3 0 0 0 3 3 2 0 3 2 1 3 0 4 1 5 2 2 2 1 4 2 3 diag 3 1/3 1/5 1/3 3 25 0 0 3 1 0 1");
+    lines.push_back("lgmres_vs_gmres right 2 1 1 0 0 0 0 2 2 1 0 1 1 1 1 id 2 1 2 2 0 0");                      // maxiter 0
+    lines.push_back("lgmres_vs_gmres right 2 1 1 3 0 0 0 2 2 1 0 1 1 1 1 id 2 0 0 2 1 1");                      // zero rhs
+    lines.push_back("lgmres_vs_gmres right 0 1 1 3 0 0 0 2 2 1 0 1 1 1 1 id 2 1 2 2 0 0");                      // M = 0: bad-input
     // malformed stream
     lines.push_back("solve_idrs 0 7/10 0 0 3 0 0 0 2 2 1 0 1 1 1 1 id 2 1 2 2 0 0");                          // s = 0
     lines.push_back("solve_idrs 1 7/10 0 0 3 0 0 0 2 2 1 0 1 1 1 1 id 2 1 2 2 0 0 3 1 1 1");                  // raw vector of wrong size
@@ -593,6 +684,19 @@ static void generate(Rng &rng, const Opts &o, std::vector<std::string> &lines) {
             if (solver == S_IDRS) put_raw(rng, l, n, prm_s(pl.get()));
             for (auto &s : calls) l << s;
         }
+        lines.push_back(l.get());
+    }
+    // LGMRES(M,K) vs GMRES(M+K) (C05f): generated AFTER all other cases so that their stream is unchanged; maxiter mostly
+    // within one cycle, thresholds mostly 0
+    for (long k = 0; k < N / 8; ++k) {
+        Line l;
+        long n = rng.range(1, nmax);
+        l << "lgmres_vs_gmres";
+        long K = rng.range(0, 2), M = rng.range(1, 3 - (K > 1 ? 1 : 0));
+        long mx = rng.coin(3, 4) ? rng.range(1, std::min<long>(M + K, 4)) : rng.range(0, 4);
+        l << (rng.coin() ? "left" : "right") << M << K << rng.coin();
+        if (rng.coin(2, 3)) l << mx << Q(0) << Q(0) << 0L; else l << mx << gen_tol(rng) << gen_abstol(rng) << rng.coin(1, 6);
+        put_call2(rng, l, n);
         lines.push_back(l.get());
     }
 }
